@@ -266,16 +266,14 @@ where
                     1
                 }
             };
-            // get a random generator initialized with seed corresponding to couple(id_hash, count)
-            // Xoshiro256PlusPlus use [u8; 32] as seed , we must fill seed_256 with (id_hash, count)
-            // TODO to optimize
-            let mut seed_256 = [0u8; 32];
-            seed_256[0..8].copy_from_slice(&id_hash.to_ne_bytes());
-            seed_256[8..16].copy_from_slice(&newcount.to_ne_bytes());
-            seed_256[16..24].copy_from_slice(&self.seed.to_ne_bytes());
-            //            seed_256[24..32].copy_from_slice(&0xcf7355744a6e8145_u64.to_ne_bytes());
-
-            let mut rng = Xoshiro256PlusPlus::from_seed(seed_256);
+            // get a random generator initialized with seed corresponding to couple(id_hash, count).
+            // The three words cannot be used as the raw state of Xoshiro256PlusPlus : its first output only reads
+            // state words 0 and 3, so all occurrences of an element (and all seeds) shared their first draw.
+            // We scramble them into one word and let seed_from_u64 (SplitMix64) fill the state, as the other sketchers do.
+            let mixed: u64 = id_hash
+                ^ newcount.wrapping_mul(0x9e37_79b9_7f4a_7c15).rotate_left(32)
+                ^ self.seed.wrapping_mul(0xbf58_476d_1ce4_e5b9);
+            let mut rng = Xoshiro256PlusPlus::seed_from_u64(mixed);
             x = Exp1.sample(&mut rng);
             let mut nb_inserted = 0;
             while x < self.max_tracker.get_max_value() {
